@@ -224,14 +224,18 @@ bool splinetable<Alloc>::read_fits_core(fitsfile* fits, const std::string& fileP
 				//distinguish whitespace included by the user and whitespace pointlessly
 				//added by FITS.
 				if(valuelen>1 && value[0]=='\''){
-					if(valuelen>2 && value[valuelen-2]=='\''){ //remove a trailing quote also
-						std::copy(value+1,value+valuelen-2,aux[i][1]);
-						aux[i][1][valuelen-3]='\0';
+					const char* vbegin=value+1; //remove the opening quote
+					const char* vend=value+valuelen-1;
+					if(valuelen>2 && value[valuelen-2]=='\'') //remove a trailing quote also
+						vend--;
+					//a quote inside the string is stored as two quotes in the card, undo that
+					size_t out=0;
+					for(const char* p=vbegin; p<vend; p++){
+						aux[i][1][out++]=*p;
+						if(*p=='\'' && p+1<vend && *(p+1)=='\'')
+							p++;
 					}
-					else{ //just remove an opening quote
-						std::copy(value+1,value+valuelen-1,aux[i][1]);
-						aux[i][1][valuelen-2]='\0';
-					}
+					aux[i][1][out]='\0';
 				}
 				else{
 					std::copy(value,value+valuelen,aux[i][1]);
